@@ -835,7 +835,7 @@ def run_scenario(cfg: dict, events: list[dict], *, entry: str, perm=None, place:
                  wall: str = "jump", site_fault: dict | None = None, hooks: bool = False,
                  force_mode: str | None = None, timeline: bool = False, atimeout: bool = False,
                  loop: bool = False, breaker_cfg: dict | None = None,
-                 flavours: str | None = None) -> list[dict]:
+                 flavours: str | None = None, entry2: str | None = None) -> list[dict]:
     """Execute the scenario through one entry point of the real library; returns the observed
     event list (same vocabulary as M's behaviours)."""
     is_async = entry.startswith(("Async", "async"))
@@ -853,13 +853,17 @@ def run_scenario(cfg: dict, events: list[dict], *, entry: str, perm=None, place:
         if breaker_cfg is not None and entry.split(".")[0] in ("Policy", "AsyncPolicy"):
             from .policyenv import make_spy_breaker
             brk = make_spy_breaker(env, breaker_cfg)
-        invokers = [make_entry(entry, env, ctor, call, brk), make_entry(entry, env, ctor, call, brk)]
+        # (entry2: the second object is of another kind - e.g. a decorated function - sharing the budget)
+        entries = [entry, entry2 or entry]
+        invokers = [make_entry(entry, env, ctor, call, brk), make_entry(entries[1], env, ctor, call, brk)]
         for own in getattr(env, "owned", []):
             own.clear()          # the policy objects must have taken copies
         for ci, run in enumerate(split_runs(events)):
             invoke = invokers[ci % 2]
             dl = next((e for e in run if e["e"] == "deliver"), {})
             mode = force_mode or dl.get("mode", "exec")
+            if entries[ci % 2] in CALL_ONLY:
+                mode = "call"
             env.call_index = ci
             env.start_run()
             tl = None
